@@ -319,7 +319,7 @@ def cnl_nests(r, syntax: str, zeros: bool = False, param=float):
                              for k, (mu, al) in enumerate(spec)))
 
 
-def variants(r, V, av, what: str = 'c05') -> list:
+def variants(r, V, av, what: str = 'c05', tuple_param=float) -> list:
     """(name, family, is_log, builder(choice) -> expression).  `family` pairs a probability function with
     its logarithm; within one structure all variants of a kind must give the same probabilities."""
     import biogeme.models as M
@@ -343,7 +343,7 @@ def variants(r, V, av, what: str = 'c05') -> list:
                   ('tuple', 'tuple', float, ('nested_mev_mu', 'lognested_mev_mu') if mu == 1.0 else ()),
                   ('objects+Beta', 'objects', beta, ('nested', 'lognested_mev_mu') if mu == 1.0 else ('nested_mev_mu',))]
         if what == 'c06':
-            styles = [('objects', 'objects', float, None), ('tuple', 'tuple', float, None)]
+            styles = [('objects', 'objects', float, None), ('tuple', 'tuple', tuple_param, None)]
         for sname, syn, param, sel in styles:
             def mk(fn, syn=syn, param=param, scaled=False):
                 if scaled:
@@ -557,12 +557,13 @@ def c05_group(group, corrupt=None, only=None) -> dict:
     sample = None
     if got:
         vname = next(iter(got))
-        k = min(len(group) - 1, 1)
+        k = next((k for k, r in enumerate(group) if sum(r['av']) >= 2 and len(set(r['a'])) > 1), 0)
         sample = dict(case=describe(group[k]), function=vname,
                       expected=[terms.show(expand(t, group[k].get('refs'))) if group[k]['exact'] else want[k][i]
                                 for i, t in enumerate(group[k]['p'])],
                       observed=[float(x) for x in got[vname][0, k]])
-    return col.result(cases=len(group), sample=sample)
+    oracle = [(describe(r), b) for r in group for b in oracle_check(r)]
+    return col.result(cases=len(group), sample=sample, oracle=oracle[:3], inexact=sum(1 for r in group if not r['exact']))
 
 
 def c05_numeric(r) -> dict:
@@ -661,7 +662,7 @@ def buggy_generating(util, availability, nests):
     return bioMultSum(terms_)
 
 
-def c06_group(group, generating=None, corrupt_dg=None, parts=('reductions', 'generating')) -> dict:
+def c06_group(group, generating=None, corrupt_dg=None, tuple_param=float, parts=('reductions', 'generating')) -> dict:
     """One structure of a nested / cross-nested logit:
     reductions (code against code, and against the specification's reduced model), scale one, tuple
     syntax = nest objects; for the nested logit the generating function, its gradient (engine) and the
@@ -701,7 +702,7 @@ def c06_group(group, generating=None, corrupt_dg=None, parts=('reductions', 'gen
         db = _obs_database(group, name='c06')
         V = {lab: log(Variable(f'a_{lab}')) for lab in labels}
         av = {lab: Variable(f'v_{lab}') for lab in labels}
-        got = {vname: ev_all(build, db) for vname, fam, is_log, build in variants(r0, V, av, what='c06')}
+        got = {vname: ev_all(build, db) for vname, fam, is_log, build in variants(r0, V, av, what='c06', tuple_param=tuple_param)}
         tol_term = lambda r: TOL_EXACT if r['exact'] else TOL_TERM  # noqa
         tol_same = lambda r: TOL_SAME  # noqa
         names = sorted({base_name(v) for v in got})
@@ -746,7 +747,7 @@ def c06_group(group, generating=None, corrupt_dg=None, parts=('reductions', 'gen
                     if not close(got[main][i, k], rp[i], rel=tol_term(r)):
                         col.bad(f'{kind}:{base_name(main)}:reduced-model-value', r, facts_of(r, base_name(main), 'reduce-value'),
                                 alternative=labels[i], got=float(got[main][i, k]), reduced_model=rp[i])
-        k = min(len(group) - 1, 1)
+        k = next((k for k, r in enumerate(group) if sum(r['av']) >= 2 and len(set(r['a'])) > 1), 0)
         sample = dict(case=describe(group[k]), reduces_to=red,
                       **{v: [float(x) for x in got[v][:, k]] for v in list(got)[:4]})
 
@@ -848,3 +849,31 @@ def c06_group(group, generating=None, corrupt_dg=None, parts=('reductions', 'gen
                                          dG_expected=want_dg, gradient_observed=[grad.get(f'y_{lab}') for lab in labels],
                                          exp_of_published_terms=[math.exp(float(t1[lab][row])) for lab in labels]))
     return col.result(cases=len(group), sample=sample)
+
+
+# ------------------------------------------------------------------------------------ reporting
+def report(chk, label: str, items, results, samples: dict | None = None) -> dict:
+    """Replay results -> counts / violations of the check.  -> statistics of this batch."""
+    stat = dict(items=len(items), cases=0, comparisons=0, engine_evaluations=0, mismatching_comparisons={}, inexact_cases=0)
+    for item, (st, v) in zip(items, results):
+        first = item[0] if isinstance(item, list) else item
+        if st != 'ok':
+            chk.violation(f'{label}:replay-{st}', dict(case=describe(first), error=v),
+                          match=dict(kind=first['kind'], clause='exception', features=facts_of(first, '', '')['features']
+                                     if first['kind'] in ('nl', 'cnl') else []))
+            continue
+        if v.get('oracle'):
+            raise tlc.MachineryError(f'the specification disagrees with itself numerically: {v["oracle"]}')
+        stat['cases'] += v['cases']
+        stat['comparisons'] += v['n']
+        stat['engine_evaluations'] += v['evals']
+        stat['inexact_cases'] += v.get('inexact', 0)
+        chk.replayed += v['cases']
+        chk.count(None, v['n'])
+        for k, c in v['counts'].items():
+            stat['mismatching_comparisons'][k] = stat['mismatching_comparisons'].get(k, 0) + c
+        for m in v['mism']:
+            chk.violation(m['key'], m['detail'], match=m['facts'])
+        if samples is not None and v.get('sample') and label not in samples:
+            samples[label] = v['sample']
+    return stat
